@@ -8,6 +8,7 @@ import (
 	"fmt"
 	"sync"
 
+	"github.com/attestantio/dirk/services/fetcher"
 	"github.com/google/uuid"
 	e2types "github.com/wealdtech/go-eth2-types/v2"
 	e2wallet "github.com/wealdtech/go-eth2-wallet"
@@ -115,10 +116,11 @@ func (a *SynthAccount) Sign(_ context.Context, data []byte) (e2types.Signature, 
 
 // SynthFetcher is an in-memory fetcher.Service over synthetic wallets.
 type SynthFetcher struct {
-	mu      sync.RWMutex
-	wallets map[string]*SynthWallet
-	byName  map[string]*SynthAccount // "wallet/account"
-	byKey   map[[48]byte]*SynthAccount
+	fetcher.Service // nil; keeps the type compiling if the interface grows
+	mu              sync.RWMutex
+	wallets         map[string]*SynthWallet
+	byName          map[string]*SynthAccount // "wallet/account"
+	byKey           map[[48]byte]*SynthAccount
 }
 
 func NewSynthFetcher() *SynthFetcher {
